@@ -56,8 +56,23 @@ func padTo(s string, n int) string {
 var nilMap map[int]int
 
 // raise panics with the value kind k selects: explicit values (string, pointer) and faults raised by the runtime.
+// brokenErr is an error whose Error method itself panics (a wrapper around a nil cause): whoever prints the
+// panic value with %v is protected by package fmt; whoever calls Error() directly is not.
+type brokenErr struct{ cause error }
+
+func (e *brokenErr) Error() string { return "wrapped: " + e.cause.Error() }
+
+// brokenStringer likewise for String().
+type brokenStringer struct{ p *tagErr }
+
+func (s brokenStringer) String() string { return s.p.Error() + fmt.Sprint(s.p.i) }
+
 func raise(i, k int, ptr *tagErr) {
-	switch k % 6 {
+	switch k % 8 {
+	case 6:
+		panic(&brokenErr{})
+	case 7:
+		panic(brokenStringer{})
 	case 0:
 		panic(padTo(fmt.Sprintf("p%d", i), ptr.pad))
 	case 1:
@@ -92,6 +107,9 @@ func samePanic(want, got any) bool {
 	}
 	if we, ok := want.(runtime.Error); ok {
 		return we.Error() == got.(runtime.Error).Error()
+	}
+	if _, ok := want.(*brokenErr); ok {
+		return true // a fresh pointer per panic: the type identifies it (its Error method cannot be called)
 	}
 	return want == got
 }
@@ -132,7 +150,7 @@ func gen(t *rapid.T) (c limCase) {
 	}()
 	n := rapid.IntRange(1, 24).Draw(t, "ntasks")
 	for i := 0; i < n; i++ {
-		c.Tasks = append(c.Tasks, task{B: rapid.SampledFrom([]int{bReturn, bYield, bGate, bGate, bGate, bPanicBeforeGate, bPanicAfterGate, bPanicNow, bGate, bYield, bReturn, bPanicNow, bNil, bGoexit}).Draw(t, "b"), K: rapid.IntRange(0, 5).Draw(t, "k")})
+		c.Tasks = append(c.Tasks, task{B: rapid.SampledFrom([]int{bReturn, bYield, bGate, bGate, bGate, bPanicBeforeGate, bPanicAfterGate, bPanicNow, bGate, bYield, bReturn, bPanicNow, bNil, bGoexit}).Draw(t, "b"), K: rapid.IntRange(0, 7).Draw(t, "k")})
 	}
 	var gates []int
 	for i, tk := range c.Tasks {
